@@ -8,6 +8,7 @@ import Bcder.Model.Encode
 import Bcder.Model.Restricted
 import Bcder.Model.Oid
 import Bcder.Model.Hex
+import Bcder.Model.Stream
 namespace Bcder
 open Prog
 
@@ -410,4 +411,30 @@ def runScript (mode : Mode) (data : Bytes) (script : List Step) : Res (Trace × 
   | .ok (tr, s) => .ok (tr, s.data.length)
   | .error e => .error e
 
+end Bcder
+
+namespace Bcder
+/-- the same, over the stream layer: a source with grant policy `pol` whose request number `failAt`
+    fails; additionally returns the number of requests issued.  `none` if the script captures
+    (not modelled in the stream layer). -/
+def runScriptS (pol : Policy) (failAt : Option Nat) (mode : Mode) (data : Bytes) (script : List Step) :
+    Option (Res (Trace × Nat) × Nat) :=
+  let fuel := data.length + 4
+  let p := decodeTop mode (fun c => do
+      let (c', x) ← runSteps fuel script c {}
+      pure (x.trace, c'))
+  -- run step by step to keep the request counter even on errors
+  let rec go : Nat → Prog Trace → S → (Res (Trace × Nat) × Nat)
+    | 0, _, s => (.error .fuel, s.reqs)
+    | _ + 1, .ret a, s => (.ok (a, s.data.length), s.reqs)
+    | _ + 1, .fail e, s => (.error e, s.reqs)
+    | n + 1, .op o k, s =>
+      match stepS pol s o with
+      | .error e => (.error e, if e == .source then s.reqs + 1 else s.reqs)
+      | .ok (r, s') => go n (k r) s'
+  let r := go (64 * (data.length + 64) * (script.length + 4)) p
+    { data := data, granted := 0, reqs := 0, failAt := failAt, limit := none }
+  match r.1 with
+  | .error (.panic "capture is not modelled in the stream layer") => none
+  | _ => some r
 end Bcder
